@@ -285,7 +285,8 @@ UpdGen(mIn, e) ==
                /\ (m6.planMsg.cmd = "checkpoint" \/ (m6.planMsg.run \in RunKeys /\ m6.bundle[m6.planMsg.run].open))
             THEN ViolIf(m6, inp # "throw", "C15:" \o m6.planMsg.cmd \o "-inside-bundle-accepted") ELSE m6
       \* C11: the plan itself must not run while a suspension holds it
-      m8a == ViolIf(m7, m7.suspWait /\ inp = "send", "C11:plan-resumed-during-suspension")
+      \* (an abort/stop/halt ends the suspension: the plan's clean-up then runs although nothing released the suspender)
+      m8a == ViolIf(m7, m7.suspWait /\ inp = "send" /\ m7.term = {} /\ m7.termLate = {}, "C11:plan-resumed-during-suspension")
       \* C31 / C11: the plan does not run while an installed suspender's condition is tripped
       m8 == ViolIf(m8a, inp = "send" /\ m8a.susEff # {} /\ m8a.term = {} /\ ~m8a.failedPause,
                    IF m8a.planMsg.cmd = "" THEN "C31:plan-started-while-suspender-tripped" ELSE "C11:plan-ran-while-suspender-tripped")
